@@ -1,3 +1,101 @@
-From ZV Require Import Lib.Base Model.Codec.
-Theorem C26_placeholder : True. Proof. exact I. Qed.
-Print Assumptions C26_placeholder.
+(** C26 — binary encodings round-trip and reject garbage safely (model: Model/Codec.v, repaired /repo).
+    wf_* (Proofs/CodecRT.v) only state what every Go value satisfies: lengths/counts < 2^63 (Go int),
+    repo ids < 2^32 (uint32 keys), IndexTimeUnix within int64. Lists stand for Go maps in iteration order
+    (any order, duplicates allowed: the statements are list equalities, hence hold for the map views
+    canon_map / canon_set as well). *)
+From ZV Require Import Lib.Base Model.Codec Proofs.CodecCost Proofs.CodecRT.
+Open Scope N_scope.
+
+(** encoding/binary: Uvarint reads back what PutUvarint wrote, for every uint64, in front of any suffix *)
+Theorem C26_uvarint_roundtrip : forall x rest, x < 2 ^ 64 ->
+  uvarint (put_uvarint x ++ rest) = (x, Z.of_nat (length (put_uvarint x))).
+Proof. exact uvarint_put. Qed.
+Print Assumptions C26_uvarint_roundtrip.
+
+(** FileNameSet: stringSetDecode (stringSetEncode set) = set, for every iteration order of the map *)
+Theorem C26_stringset_roundtrip : forall l : list bytes,
+  nlen l < 2 ^ 63 /\ Forall (fun s => nlen s < 2 ^ 63) l ->
+  dec_set (enc_set l) = Ok l.
+Proof. exact dec_set_enc. Qed.
+Print Assumptions C26_stringset_roundtrip.
+
+Corollary C26_stringset_roundtrip_set : forall l, wf_set l ->
+  omap canon_set (dec_set (enc_set l)) = Ok (canon_set l).
+Proof. intros l H. rewrite (dec_set_enc l H). reflexivity. Qed.
+Print Assumptions C26_stringset_roundtrip_set.
+
+(** ReposMap (version 2 writer): reposMapDecode (reposMapEncode m) = m, nil map included *)
+Theorem C26_reposmap_roundtrip : forall l : list (N * rentry),
+  (nlen l < 2 ^ 63 /\ N.of_nat (all_branches l) < 2 ^ 63 /\
+   Forall (fun e => let '(id, (hs, it, brs)) := e in
+                    id < 2 ^ 32 /\ (- two63 <= it < two63)%Z /\ nlen brs < 2 ^ 63 /\
+                    Forall (fun b => nlen (fst b) < 2 ^ 63 /\ nlen (snd b) < 2 ^ 63) brs) l) ->
+  dec_repos (enc_repos (Some l)) = Ok (Some l) /\ dec_repos (enc_repos None) = Ok None.
+Proof. intros l H. split; [exact (dec_repos_enc l H) | exact dec_repos_enc_nil]. Qed.
+Print Assumptions C26_reposmap_roundtrip.
+
+(** BranchesRepos: for ANY bitmap serialiser/deserialiser pair (roaring WriteTo / FromBuffer) that round-trips
+    on the bitmaps of the value, the framing round-trips the whole list *)
+Theorem C26_branchesrepos_roundtrip : forall (T : Type) (ser : T -> bytes) (bm : bytes -> outcome T) (l : list (bytes * T)),
+  (nlen l < 2 ^ 63 /\
+   Forall (fun p => nlen (fst p) < 2 ^ 63 /\ nlen (ser (snd p)) < 2 ^ 63 /\ bm (ser (snd p)) = Ok (snd p)) l) ->
+  dec_br bm (enc_br (map (fun p => (fst p, ser (snd p))) l)) = Ok l.
+Proof. intros T ser bm l H. exact (dec_br_enc ser bm l H). Qed.
+Print Assumptions C26_branchesrepos_roundtrip.
+
+(** decoding ANY byte string never panics: every slice expression and make in the decoders is in range
+    (FromBuffer is external: assumed not to panic) *)
+Theorem C26_decode_total : forall b : bytes,
+  is_panic (dec_set b) = false /\ is_panic (dec_repos b) = false /\
+  (forall (T : Type) (bm : bytes -> outcome T), (forall blob, is_panic (bm blob) = false) -> is_panic (dec_br bm b) = false).
+Proof.
+  intros b. split; [exact (proj1 (dec_set_cost b)) | split; [exact (proj1 (dec_repos_cost b))|]].
+  intros T bm H. exact (proj1 (dec_br_cost bm b H)).
+Qed.
+Print Assumptions C26_decode_total.
+
+(** decoding ANY byte string takes at most |b|+1 reader steps and requests at most 4|b| allocation units
+    (clone of the input, make hints/lengths/capacities, appends); in particular loop counts and make sizes
+    read from the input are bounded by the input length *)
+Theorem C26_decode_bounded : forall b : bytes,
+  let n := length b in
+  (steps (snd (run dec_set_m b)) <= n + 1 /\ alloc (snd (run dec_set_m b)) <= 3 * n)%nat /\
+  (steps (snd (run dec_repos_m b)) <= n + 1 /\ alloc (snd (run dec_repos_m b)) <= 4 * n)%nat /\
+  (forall (T : Type) (bm : bytes -> outcome T), (forall blob, is_panic (bm blob) = false) ->
+     steps (snd (run (dec_br_m bm) b)) <= n + 1 /\ alloc (snd (run (dec_br_m bm) b)) <= 3 * n)%nat.
+Proof.
+  intros b n. split; [exact (proj2 (dec_set_cost b)) | split; [exact (proj2 (dec_repos_cost b))|]].
+  intros T bm H. exact (proj2 (dec_br_cost bm b H)).
+Qed.
+Print Assumptions C26_decode_bounded.
+
+(** ---- non-vacuity *)
+Example C26_ex_set : dec_set (enc_set [[104;105]; []; [195;169]]) = Ok [[104;105]; []; [195;169]]
+  /\ enc_set [[104;105]; []; [195;169]] = [1;3;2;104;105;0;2;195;169].
+Proof. vm_compute. split; reflexivity. Qed.
+Example C26_ex_set_wf : wf_set [[104;105]; []; [195;169]].
+Proof. split; [vm_compute; reflexivity | repeat constructor]. Qed.
+Example C26_ex_repos :
+  let v := [(4294967295, (true, (-1)%Z, [([72;69;65;68], [97;98])])); (7, (false, 1700000000%Z, []))] in
+  wf_repos v /\ dec_repos (enc_repos (Some v)) = Ok (Some v).
+Proof.
+  split; [| vm_compute; reflexivity].
+  split; [vm_compute; reflexivity|]. split; [vm_compute; reflexivity|].
+  constructor; [|constructor; [|constructor]].
+  - split; [vm_compute; reflexivity|]. split; [split; vm_compute; [discriminate|reflexivity]|]. split; [vm_compute; reflexivity|].
+    constructor; [|constructor]. split; vm_compute; reflexivity.
+  - split; [vm_compute; reflexivity|]. split; [split; vm_compute; [discriminate|reflexivity]|]. split; [vm_compute; reflexivity|constructor].
+Qed.
+Example C26_ex_br :
+  dec_br (fun blob => Ok blob) (enc_br [([97], [58;48;0;0]); ([], [])]) = Ok [([97], [58;48;0;0]); ([], [])].
+Proof. vm_compute. reflexivity. Qed.
+(** the hostile 10-byte input of DESIGN §6 (count 2^63-1) is rejected after 2 reader steps *)
+Example C26_ex_hostile :
+  let b := [1;255;255;255;255;255;255;255;255;127] in
+  dec_set b = Err 1 /\ steps (snd (run dec_set_m b)) = 2%nat /\ alloc (snd (run dec_set_m b)) = 10%nat.
+Proof. vm_compute. repeat split; reflexivity. Qed.
+(** a string length of 2^64-1 (int -1) no longer reaches the slice expression *)
+Example C26_ex_neg_len : dec_set [1;1;255;255;255;255;255;255;255;255;255;1;97;98] = Err 1.
+Proof. vm_compute. reflexivity. Qed.
+Example C26_ex_uvarint : uvarint (put_uvarint 18446744073709551615 ++ [7]) = (18446744073709551615, 10%Z).
+Proof. vm_compute. reflexivity. Qed.
